@@ -401,12 +401,19 @@ func litKind(text string) uint {
 }
 
 // Gen generates a normal-form expression with at most `budget` nodes below it.
-func Gen(r *vh.Rand, budget int) *E {
+func Gen(r *vh.Rand, budget int) *E { return GenWith(r, budget, identPool, litPool) }
+
+// LitPool returns the literal pool (source texts).
+func LitPool() []string { return litPool }
+
+// GenWith is Gen over the given identifier / literal pools.
+func GenWith(r *vh.Rand, budget int, idents, lits []string) *E {
+	Gen := func(r *vh.Rand, budget int) *E { return GenWith(r, budget, idents, lits) }
 	if budget <= 1 || r.Chance(20) {
 		if r.Chance(55) {
-			return &E{K: KIdent, Text: r.Pick(identPool)}
+			return &E{K: KIdent, Text: r.Pick(idents)}
 		}
-		t := r.Pick(litPool)
+		t := r.Pick(lits)
 		return &E{K: KLit, Text: t, Tok: litKind(t)}
 	}
 	switch r.Intn(10) {
